@@ -6,7 +6,10 @@
   and restore's `download_stream` sit inside a `with self._acquire_slot…` → `transfersUnderSlot`.
 * `snapshot._worker`: the loop test, translated as a Boolean function of (queue empty, producer done) → `workerContinues`.
 * `snapshot`: `try: await gather(workers) / except: abort.set(); raise / finally: await chunk_producer` → `abortOnWorkerFailure`;
-  the producer returns when it sees the abort flag, before every put attempt → `producerStopsOnAbort`.
+  `_chunk_producer` tests `abort.is_set()` (and returns) before it queues a chunk → `producerStopsOnAbort`; the put itself is a
+  `while True:` loop of *timed / non-blocking* attempts (`put(chunk, timeout=…)`, `put(chunk, block=False)`, `put_nowait`) with
+  that abort test inside the loop, `queue.Full` swallowed, `break` on success → `producerRechecksWhileFull` (a producer that
+  waits on a full queue still sees the flag).  A single blocking `put(chunk)` gives `false`.
 * `restore._write_chunk_ref`: `with glock: (get | create + refcount = 1 | refcount += 1)`, `with flock: write`,
   `with glock: refcount -= 1; if not refcount: del` → `flockShapeRecognised`, `flockDelAtZero`.
 * `restore._download_chunk`: all writer futures are awaited before the finalisation loop → `loaderJoinsWritersFirst`; the digest is
@@ -62,6 +65,84 @@ def _under_slot(ctx, fn, call_txt):
         return False
     walk(fn, False)
     return bool(found) and all(found)
+
+
+def _is_abort_return(ctx, st):
+    """`if abort.is_set(): …; return`"""
+    return (isinstance(st, ast.If) and ctx.unparse(st.test) == 'abort.is_set()' and st.body and isinstance(st.body[-1], ast.Return)
+            and not st.orelse)
+
+
+def _queue_put(ctx, node):
+    """→ None | 'blocking' | 'bounded' for a call node that queues the chunk"""
+    if not (isinstance(node, ast.Call) and isinstance(node.func, ast.Attribute) and ctx.unparse(node.func.value) == 'chunk_queue'):
+        return None
+    if node.func.attr == 'put_nowait':
+        return 'bounded'
+    if node.func.attr != 'put':
+        return None
+    kw = {k.arg: k.value for k in node.keywords}
+    block = kw.get('block', node.args[1] if len(node.args) > 1 else None)
+    timeout = kw.get('timeout', node.args[2] if len(node.args) > 2 else None)
+    if isinstance(block, ast.Constant) and block.value is False:
+        return 'bounded'
+    if timeout is not None and not (isinstance(timeout, ast.Constant) and timeout.value is None):
+        return 'bounded'        # (a name such as `queue_timeout`: its default is a positive number, checked below)
+    return 'blocking'
+
+
+def _producer_abort_shape(ctx, prod):
+    """(tests the abort flag before queuing a chunk?, is the put a loop of bounded attempts that re-tests the flag?)"""
+    if prod is None:
+        return False, False
+    puts = [n for n in ast.walk(prod) if _queue_put(ctx, n) is not None]
+    if len(puts) != 1:
+        return False, False
+    kind = _queue_put(ctx, puts[0])
+    # a timeout given by a parameter of the producer must default to a number (None would block)
+    for k in puts[0].keywords:
+        if k.arg == 'timeout' and isinstance(k.value, ast.Name):
+            names = [a.arg for a in prod.args.args]
+            dflt = dict(zip(names[len(names) - len(prod.args.defaults):], prod.args.defaults)).get(k.value.id)
+            if not (isinstance(dflt, ast.Constant) and isinstance(dflt.value, (int, float)) and not isinstance(dflt.value, bool) and dflt.value >= 0):
+                kind = 'blocking'
+    # the chain of statement lists from the per-chunk `for` loop down to the put
+    loops = [n for n in prod.body if isinstance(n, ast.For)]
+    if len(loops) != 1:
+        return False, False
+
+    def path_to(stmts, target):
+        for i, st in enumerate(stmts):
+            if any(x is target for x in ast.walk(st)):
+                for field in ('body', 'orelse', 'finalbody'):
+                    sub = getattr(st, field, None)
+                    if isinstance(sub, list) and any(any(x is target for x in ast.walk(y)) for y in sub if isinstance(y, ast.AST)):
+                        return [(stmts, i, st)] + path_to(sub, target)
+                for h in getattr(st, 'handlers', []):
+                    if any(x is target for x in ast.walk(h)):
+                        return [(stmts, i, st)] + path_to(h.body, target)
+                return [(stmts, i, st)]
+        return []
+    path = path_to(loops[0].body, puts[0])
+    if not path:
+        return False, False
+    # (a) an abort test precedes the put on the way down (same statement list, earlier position)
+    stops = any(_is_abort_return(ctx, prev) for stmts, i, _ in path for prev in stmts[:i])
+    # (b) the innermost enclosing `while True:` re-tests the flag before each bounded attempt, swallows Full and leaves on success
+    rechecks = False
+    for depth, (stmts, i, st) in enumerate(path):
+        if isinstance(st, ast.While) and ctx.unparse(st.test) == 'True' and not st.orelse and depth + 1 < len(path):
+            body, j, inner = path[depth + 1]
+            test_first = any(_is_abort_return(ctx, prev) for prev in body[:j])
+            if isinstance(inner, ast.Try) and not inner.finalbody and any(x is puts[0] for y in inner.body for x in ast.walk(y)):
+                full = [h for h in inner.handlers if h.type is not None and ctx.unparse(h.type) in ('queue.Full', 'Full')]
+                # `queue.Full` is swallowed: the handler neither leaves the loop nor the function (pass / continue / a sleep / a log line)
+                swallowed = (len(inner.handlers) == 1 and len(full) == 1
+                             and not any(isinstance(x, (ast.Return, ast.Raise, ast.Break)) for y in full[0].body for x in ast.walk(y)))
+                leaves = len(inner.orelse) == 1 and isinstance(inner.orelse[0], ast.Break)
+                leaves = leaves or (len(inner.body) >= 2 and isinstance(inner.body[-1], ast.Break))
+                rechecks = kind == 'bounded' and test_first and swallowed and leaves
+    return stops, stops and rechecks
 
 
 def section(ctx):
@@ -140,14 +221,13 @@ def section(ctx):
     emit(f'def abortOnWorkerFailure : Bool := {"true" if abort_ok else "false"}')
     prod = ctx.find_func(tree, 'Repository', 'snapshot', '_chunk_producer')
     ctx.fp('repository.snapshot._chunk_producer', prod)
-    stops = False
-    for n in ast.walk(prod) if prod is not None else []:
-        if isinstance(n, ast.While) and un(n.test) == 'True' and len(n.body) == 2:
-            first, second = n.body
-            stops = (isinstance(first, ast.If) and un(first.test) == 'abort.is_set()' and isinstance(first.body[-1], ast.Return)
-                     and isinstance(second, ast.Try) and un(second.body[0]) == 'chunk_queue.put(chunk, timeout=queue_timeout)'
-                     and len(second.orelse) == 1 and isinstance(second.orelse[0], ast.Break))
+    stops, rechecks = _producer_abort_shape(ctx, prod)
     emit(f'def producerStopsOnAbort : Bool := {"true" if stops else "false"}')
+    emit(f'def producerRechecksWhileFull : Bool := {"true" if rechecks else "false"}')
+    if not stops:
+        notes['sched.producer_abort'] = '_chunk_producer: no `if abort.is_set(): … return` before the chunk is queued'
+    elif not rechecks:
+        notes['sched.producer_put'] = '_chunk_producer: the put is not a loop of timed attempts that re-tests the abort flag'
 
     # ---- restore: per-file write locks
     wr = ctx.find_func(tree, 'Repository', 'restore', '_write_chunk_ref')
